@@ -1,10 +1,10 @@
 #!/bin/bash
-# usage: confirm_mutant.sh <worktree> <demo-filter>
+# usage: confirm_mutant.sh <worktree> <demo-filter> ["<extra cargo args for the demonstration, e.g. --features testing,tokio,threaded>"]
 # Confirms a seeded change in a scratch worktree of /repo (never in /repo itself):
 #   1. the library change alone compiles and the pinned baseline suite passes with it,
 #   2. the demonstration fails with the change and passes without it.
 # Expects <worktree>/patch.diff and <worktree>/demo.diff.  Prints a JSON summary on the last line.
-WT=$1; FILTER=${2:-seeded_demo}
+WT=$1; FILTER=${2:-seeded_demo}; EXTRA=${3:-}
 cd $WT || exit 2
 export CARGO_TARGET_DIR=$WT/target CARGO_NET_OFFLINE=true
 git checkout -q -- . 2>/dev/null; git clean -fdq -e target -e patch.diff -e demo.diff -e meta.json -e DEMO.md >/dev/null 2>&1
@@ -31,8 +31,8 @@ print(json.dumps({"stable_pass_expected": len(want), "passed_of_those": len(want
 PY
 # 2. demonstration with and without the change
 git apply demo.diff || { echo '{"error":"demo does not apply"}'; exit 2; }
-cargo nextest run -p gneiss-mqtt --offline --no-fail-fast $FILTER > $WT/demo_with.log 2>&1; RC_WITH=$?
+cargo nextest run -p gneiss-mqtt $EXTRA --offline --no-fail-fast $FILTER > $WT/demo_with.log 2>&1; RC_WITH=$?
 git apply -R patch.diff
-cargo nextest run -p gneiss-mqtt --offline --no-fail-fast $FILTER > $WT/demo_without.log 2>&1; RC_WITHOUT=$?
+cargo nextest run -p gneiss-mqtt $EXTRA --offline --no-fail-fast $FILTER > $WT/demo_without.log 2>&1; RC_WITHOUT=$?
 W=$(grep -E "tests run:" $WT/demo_with.log | tail -1 | sed 's/^ *//'); WO=$(grep -E "tests run:" $WT/demo_without.log | tail -1 | sed 's/^ *//')
 echo "{\"baseline\": $(cat $WT/baseline.json), \"demo_with_change_rc\": $RC_WITH, \"demo_with_change\": \"$W\", \"demo_without_change_rc\": $RC_WITHOUT, \"demo_without_change\": \"$WO\"}"
